@@ -320,7 +320,7 @@ def run(ctx):
         return
     # ---- direct kernel calls
     cases = chain_cases(ctx) + crit_cases(ctx)
-    outs = run_driver(ctx, "C06", "\n".join(kin(c) for c in cases) + "\n")
+    outs = run_driver(ctx, "C06", [(kin(c)) + "\n" for c in cases])
     if outs is None or len(outs) != len(cases):
         ctx.broke("correspondence", "drv_C06", "driver produced %s lines for %d cases" % (None if outs is None else len(outs), len(cases)))
         return
